@@ -338,10 +338,11 @@ CHECKS = {
                  "held PENDING or EXCLUSIVE, or RESERVED with a journal on disk. Distinct = fingerprint of the spec."),
         "assumptions": ["system libsqlite3 (3.40.1) unix VFS with POSIX advisory locks is the writer"],
         "min_nontrivial": {"quick": 150, "thorough": 3000},
-        "required_classes": ["read-meets-unseen-commit-and-open-transaction", "writer-changes-schema", "state:UNLOCKED", "state:SHARED", "state:RESERVED", "state:RESERVED+journal", "state:PENDING", "state:EXCLUSIVE", "state:EXCLUSIVE+journal+spilled", "sync-off=true", "sync-off=false", "state:PENDING+commit-blocked-by-our-own-handle", "state:shared-range-write-locked-without-pending"],
+        "required_classes": ["at-probe:writer-rollback", "read-meets-unseen-commit-and-open-transaction", "writer-changes-schema", "state:UNLOCKED", "state:SHARED", "state:RESERVED", "state:RESERVED+journal", "state:PENDING", "state:EXCLUSIVE", "state:EXCLUSIVE+journal+spilled", "sync-off=true", "sync-off=false", "state:PENDING+commit-blocked-by-our-own-handle", "state:shared-range-write-locked-without-pending"],
         "timeout": {"quick": 400, "thorough": 2400},
         "jobs": [
             job("states", "c07", ["TestC07LockStates"], 250, 5000, 3, 10),
+            job("atprobe", "c07", ["TestC07WriterEndsAtProbe"], 60, 1200, 1, 4),
         ],
     },
     "C06": {
